@@ -338,6 +338,18 @@ def run_derive(c, res):
             if not all(abs(g - e) <= ptol * max(1.0, abs(e)) for g, e in zip(got, exp)):
                 res.violation('derive:params', '%s gives (T, M, W) = %r, the documented rules give %r' % (what, got, exp), one)
                 continue
+            # the same channel counted from the last one (-1 is the last channel), and by position where it was named
+            if chan is not None:
+                for alt in (ch - a0.shape[1], ch):
+                    try:
+                        t2 = L(data=data, channel=alt, **ovr)
+                        got2 = (float(t2.T), float(t2.M), float(t2.W))
+                    except Exception as e:
+                        res.violation('derive:channel-spelling-raises:%s' % type(e).__name__, 'logicle(data=%s, channel=%r, %r) raised %s: %s (channel=%r works)' % (cont, alt, ovr, type(e).__name__, e, chan), one)
+                        break
+                    if got2 != got:
+                        res.violation('derive:channel-spelling', 'logicle(data=%s, channel=%r, %r) gives %r, with channel=%r it gives %r' % (cont, alt, ovr, got2, chan, got), one)
+                        break
             res.ok('derive:' + cont, True)
     # one list object handed to the transform for every channel in turn (as scatter2d does for the two axes): the list and its
     # elements come back unchanged, and each answer equals the one for a freshly built list
